@@ -545,16 +545,19 @@ structure FreshGraph (s : H) : Prop where
   names : s._full_name_to_node = []
   nextId : s.next_node_id = 0
 
+/-- the heap after the first loop: the objects of the pairs `nodeSpecs L m`, registered one after the other -/
+def nodesHeap (L : Lang) (m : Inst) (ns : List GNode) (s : H) : H := regSpecs s (nodeSpecs L m) ns
+
 /-- **the translated first loop creates exactly the nodes of the model** (`TN.Post`: node `n` of `ns` is the
 object at reference `s.nfresh + n.id`, with the attributes of `TN.pyNodeOf`, registered under its id and full
 name; everything else is unchanged) -/
 theorem nodes_tie (L : Lang) (m : Inst) (atts : List PyAttackerInfo) (hid : (m.assets.map (·.id)).Nodup)
     (ns : List GNode) (h : genNodes L m = .ok ns) :
     ∃ F, ∀ fuel, F ≤ fuel → ∀ s : H, FreshGraph s →
-      ∃ s', graph__generate_graph_nodes s (genEnvOf L m atts fuel) = .ok s' ∧
-        Post s.nfresh (nodeSpecs L m) ns s s' := by
+      graph__generate_graph_nodes s (genEnvOf L m atts fuel) = .ok (nodesHeap L m ns s) ∧
+        Post s.nfresh (nodeSpecs L m) ns s (nodesHeap L m ns s) := by
   obtain ⟨F, hF⟩ := loop_ok L m atts (nodeSpecs L m) 0 ns h (fun p hp => specOK_of_mem L m hid p hp)
-  refine ⟨F, fun fuel hf s hs => ⟨regSpecs s (nodeSpecs L m) ns, ?_, ?_⟩⟩
+  refine ⟨F, fun fuel hf s hs => ⟨?_, ?_⟩⟩
   · rw [nodes_genEnv]
     exact hF fuel hf s (by intro e he; rw [hs.ids] at he; cases he)
   · exact regSpecs_post L m (nodeSpecs L m) 0 ns h s s.nfresh hs.nextId rfl
@@ -584,13 +587,14 @@ theorem nodes_represents (L : Lang) (m : Inst) (atts : List PyAttackerInfo) (hid
     (ns : List GNode) (h : genNodes L m = .ok ns) :
     ∃ F, ∀ fuel, F ≤ fuel → ∀ s : H, FreshGraph s → s.nfresh = 0 →
       (∀ r, (s.n r).children = [] ∧ (s.n r).parents = []) →
-      ∃ s', graph__generate_graph_nodes s (genEnvOf L m atts fuel) = .ok s' ∧ Represents L m ns s' ∧
-        Post 0 (nodeSpecs L m) ns s s' := by
+      graph__generate_graph_nodes s (genEnvOf L m atts fuel) = .ok (nodesHeap L m ns s) ∧
+        Represents L m ns (nodesHeap L m ns s) ∧ Post 0 (nodeSpecs L m) ns s (nodesHeap L m ns s) := by
   obtain ⟨F, hF⟩ := nodes_tie L m atts hid ns h
   refine ⟨F, fun fuel hf s hs h0 hblank => ?_⟩
-  obtain ⟨s', hs', P⟩ := hF fuel hf s hs
+  obtain ⟨hs', P⟩ := hF fuel hf s hs
   rw [h0] at P
-  refine ⟨s', hs', ?_, P⟩
+  refine ⟨hs', ?_, P⟩
+  generalize nodesHeap L m ns s = s' at hs' P
   have hlen : ns.length = (nodeSpecs L m).length := MalVerif.C02.length_eq L m ns h
   have hobj : ∀ j (h2 : j < ns.length), s'.n j =
       { pyNodeOf (nodeSpecs L m)[j].1 (nodeSpecs L m)[j].2.1 (nodeSpecs L m)[j].2.2 ns[j].exist with
@@ -647,4 +651,68 @@ theorem nodes_represents (L : Lang) (m : Inst) (atts : List PyAttackerInfo) (hid
       funext d n; rw [Nat.zero_add]
     rw [this, foldl_dictSet_get]
     cases (nameIndex ns k).map (·.id) <;> rfl
+/-! ### reading the post-condition: node list, lookups -/
+namespace TN
+open MalVerif.AGS TG
+
+theorem dictGet_foldl_dictSet {α κ : Type} [DecidableEq κ] (l : List α) (key : α → κ) (val : α → Nat)
+    (d0 : List (κ × Nat)) (q : κ) :
+    dictGet (l.foldl (fun d x => dictSet d (key x) (val x)) d0) q =
+      ((l.reverse.find? (fun x => key x = q)).map val).or (dictGet d0 q) := by
+  induction l generalizing d0 with
+  | nil => rfl
+  | cons x l ih =>
+    rw [List.foldl_cons, ih, List.reverse_cons, List.find?_append, dictGet_eq_dget, dictSet_eq_dset, dget_dset,
+      dictGet_eq_dget]
+    cases List.find? (fun x => decide (key x = q)) l.reverse with
+    | some t => rfl
+    | none =>
+      by_cases h : key x = q
+      · simp [h]
+      · have h' : ¬ q = key x := fun e => h e.symm
+        simp [h, h']
+
+/-- ids are positions: the references of the new nodes are consecutive -/
+theorem post_nodes (L : Lang) (m : Inst) (ns : List GNode) (h : genNodes L m = .ok ns) (k : Nat) :
+    ns.map (fun n => k + n.id) = List.range' k ns.length := by
+  have hid := (MalVerif.C02.nodes_eq_spec L m ns h).2
+  apply List.ext_getElem (by simp)
+  intro j h1 h2
+  simp only [List.length_map] at h1
+  have := congrArg (fun l => l[j]?) hid
+  simp [h1] at this
+  simp [this]
+
+theorem post_lookup_name {k : Nat} {specs : List (IAsset × String × StepDecl)} {ns : List GNode} {s s' : H}
+    (P : Post k specs ns s s') (key : String) :
+    graph_get_node_by_full_name s' key =
+      ((nameIndex ns key).map (fun n => k + n.id)).or (graph_get_node_by_full_name s key) := by
+  show dictGet s'._full_name_to_node key = _
+  rw [P.names]
+  exact dictGet_foldl_dictSet ns GNode.fullName (fun n => k + n.id) _ key
+
+theorem post_lookup_id {k : Nat} {specs : List (IAsset × String × StepDecl)} {ns : List GNode} {s s' : H}
+    (P : Post k specs ns s s') (q : Int) :
+    graph_get_node_by_id s' q =
+      ((ns.reverse.find? (fun n => Int.ofNat n.id = q)).map (fun n => k + n.id)).or (graph_get_node_by_id s q) := by
+  show dictGet s'._id_to_node q = _
+  rw [P.ids]
+  exact dictGet_foldl_dictSet ns (fun n => Int.ofNat n.id) (fun n => k + n.id) _ q
+
+end TN
+
+/-- the linking loop reads the same of `genEnvOf L m atts fuel` as of `envOf L m fuel` -/
+theorem link_genEnv (L : Lang) (m : Inst) (atts : List PyAttackerInfo) (fuel : Nat) (s : H) :
+    graph__generate_graph_link s (genEnvOf L m atts fuel) = graph__generate_graph_link s (envOf L m fuel) := by
+  rw [TL.link_eq, TL.link_eq]
+  congr 1
+  funext a t
+  unfold TL.body1
+  congr 2
+  funext e u
+  unfold TL.body2
+  show (_process_step_expression fuel (genEnvOf L m atts fuel) _ e >>= _) =
+    (_process_step_expression fuel (envOf L m fuel) _ e >>= _)
+  rw [TN.eval_genEnv, ← TL.eval_envOf_fuel L m fuel]
+
 end MalVerif.Py.Tie
